@@ -68,12 +68,23 @@ class Handle:
         return 'Handle(copied=%d)' % self.copied
 
 
+class NoDeep:
+    """A context value that can be shallow-copied (that is what __old__ does with the values of the context) but not
+    deep-copied (it owns a lock, a socket...): nobody has a reason to deep-copy the context."""
+
+    def __copy__(self):
+        return self
+
+    def __deepcopy__(self, memo):
+        raise TypeError('this object cannot be deep-copied')
+
+
 class VCoder(build.Coder):
     """Every executable fragment bumps an int (rebinding), a Box attribute and a list (both in place);
     conditions read all three through __old__."""
 
     def _bump(self, code):
-        return code + '\nv = v + 1\nbox.n = box.n + 1\nlst.append(0)'
+        return code + '\nv = v + 1\nbox.n = box.n + 1\nlst.append(0)\n_p = _p + 1'
 
     def entry(self, ch, n):
         return self._bump(build.Coder.entry(self, ch, n))
@@ -99,7 +110,8 @@ class VCoder(build.Coder):
         elif kind == 'inv' and not owner_is_transition:
             # what sent() answers at the end of a step is recorded and compared with the events listed in the MacroStep
             act += " and S(%r, sent('m0'), sent('m1'), sent(%r))" % (cid, ch['events'][h % len(ch['events'])])
-        return 'K(%r, time, (__old__.v, __old__.box.n, len(__old__.lst)))%s' % (cid, act)
+        # (a variable whose name starts with an underscore is a variable like any other, also through __old__)
+        return 'K(%r, time, (__old__.v, __old__.box.n, len(__old__.lst)))%s and __old__._p == __old__.v' % (cid, act)
 
 
 CODER = VCoder()
@@ -109,7 +121,7 @@ def fresh(ch, valseed, p_true, cond_plan=None, ignore_contract=False):
     sc, tmap = build.build_api(ch, coder=CODER)
     pr = Probes(val=make_val(valseed, p_true))
     pr.cond_plan = cond_plan
-    it = Interpreter(sc, initial_context=pr.context(v=0, box=Box(), lst=[]), ignore_contract=ignore_contract)
+    it = Interpreter(sc, initial_context=pr.context(v=0, box=Box(), lst=[], _p=0, res=NoDeep()), ignore_contract=ignore_contract)
     it.attach(pr.listener())        # somebody listens: nothing may be delivered after a failing condition either
     return sc, tmap, pr, it
 
@@ -427,7 +439,7 @@ def run_case(acc, rnd, tier, case):
         # a second live interpreter on the very same Statechart object, fed the same inputs one operation ahead, with
         # other values in its context: snapshots (__old__) belong to an interpreter, not to the statechart
         pr2 = Probes(val=make_val(valseed, p_true))
-        it2 = Interpreter(sc, initial_context=pr2.context(v=5000, box=Box(), lst=[0] * 7))
+        it2 = Interpreter(sc, initial_context=pr2.context(v=5000, box=Box(), lst=[0] * 7, _p=5000))
         it2.context['box'].n = 5000
         shadow = Runner(it2, tmap, log=pr2.log)
         acc.count('runs_with_second_live_interpreter')
